@@ -219,13 +219,11 @@ def run(res):
                   'event %d (%s %s) rejected by HeapDictTrace: %s' % (v['l'], ev['op'], ev['key'], v['clause']))
   res.sample({'trace_cap': traces[0]['cap'], 'first_events': traces[0]['events'][:3]})
   res.extra['trace_events'] = sum(len(t['events']) for t in traces)
-  # 4. search half
-  try:
-    from harness import mm
-  except ImportError:
-    mm = None
-  if mm is not None and hasattr(mm, 'run_search_clauses'):
-    mm.run_search_clauses(res, owner='C14')
+  # 4. search half: design-level TopK of the exhaustive loop + recorded result lists judged by MMTrace
+  from harness import mm, mmdesign
+  mmdesign.run_design_level(res, 'C14')
+  _, _, stats = mm.run_search_clauses(res, owner='C14', count=(1500 if thorough else 140))
+  mm.vacuity_guard(res, 'C14', stats)
   res.exhaustive = False
   res.rule = ('(R) all push histories over 2 keys x 3 values x 2 tags, cap 0..%d, length <= %d, enumerated by TLC and '
               'replayed; (T) %d random runs (cap 0..8, 1-4 keys of str/int/float type, 3-80 pushes, many ties) '
